@@ -103,6 +103,25 @@ CLAIMED["C15"] = dict(
          "rounding, the echo of the input blocks (SLHAea).",
     ref="3 C15")
 
+CLAIMED["C13"] = dict(
+    category="other",
+    technique="abstract evaluation of every key->parameter switch arm into (target, transform) rows compared "
+              "with an independent table and the README/example comments; structural rules for whole-token "
+              "conversion, exception discipline, scale filtering and case-insensitive block lookup",
+    text="Decides the structural clauses of 'interpreted by content': whole-token, finite numeric conversion "
+         "with every failure -> EReadError; all 160 (block, key) rows of the 13 reader tables equal an "
+         "independent statement of the documented tables (SLHA conventions, PDG codes) whose rows are in turn "
+         "matched against the README/example comments; sibling readers of one block agree; exactly HMIX, AU, "
+         "AD, AE, MSOFT are read at the model scale (absolute tolerance 0.01) after the scale was fixed from the "
+         "last HMIX block; block lookup always goes through SLHAea's case-insensitive find over all blocks of a "
+         "name; unknown keys write nothing; configuration fields only through the validating readers with the "
+         "README's ranges. A key swapped between two generations or a PDG code mapped to the wrong mass is "
+         "invisible to tests that use symmetric points; here it is a table mismatch.",
+    note=TRUST + "specs/slha_keys.py is the independent table (each row's keyword is checked against the "
+         "repository's documentation; a mismatch makes the check inconclusive, not passing). Not decided: "
+         "SLHAea's tokeniser (comments, whitespace, order of blocks).",
+    ref="3 C13, Appendix B")
+
 NOT_APPLICABLE = {
     "C03": "numerical agreement of one-loop results with an independent higher-precision evaluation over all "
            "parameter points: depends on eigen-decomposition values; no code-shape clause of its own "
